@@ -704,6 +704,12 @@ class Evaluator:
                 if r:
                     v, t, rets = r
                     return (v, cat(pre, ['?'], t))
+            if name in ('is_some_and', 'is_ok_and') and len(argv) == 2:
+                # `opt.is_some_and(|x| p(x))` is `if let Some(x) = opt { p(x) } else { false }`
+                payload = ('field', recv, 0, 'Some' if name == 'is_some_and' else 'Ok')
+                r = self.apply_closure(argv[1], [payload], ctx)
+                if r and r[1] == ['eps']:
+                    return (('bin', 'And', ('letcond', 'Some' if name == 'is_some_and' else 'Ok', recv), strip(r[0])), pre)
             if name in ('map', 'inspect'):
                 r = self.apply_closure(argv[1], [inner], ctx)
                 if r:
